@@ -40,6 +40,11 @@ def call(eng, st, canon, node, guard):
     if canon == "len":
         USED.add("len")
         a = args[0]
+        if isinstance(a, Ref) and eng.is_set(st, a):
+            USED.add("len(set) = cardinality (uninterpreted, >= 0)")
+            cnt = sx.CARD(eng.sel(st, a))
+            st.pc.append(cnt >= 0)
+            return cnt
         if isinstance(a, Ref):
             return eng.ref_len(st, a)
         if isinstance(a, tuple):
@@ -62,6 +67,9 @@ def call(eng, st, canon, node, guard):
         if isinstance(a, int) or (sx.is_z3(a) and z3.is_int(a)):
             return a
         raise Unsupported("int() of a non-integer")
+    if canon.endswith("Element") and len(args) == 1 and not isinstance(args[0], (Ref, tuple, PyObj)):
+        USED.add("Element(x) preserves identity and equality of element ids (A-elem)")
+        return args[0]
     if canon == "float":
         if isinstance(args[0], PyObj) and args[0].kind == "str" and args[0].val.lower() == "nan":
             return sx.FL.nan
